@@ -17,6 +17,7 @@ import (
 	"reflect"
 	"sort"
 	"strings"
+	"sync"
 	"time"
 
 	"github.com/go-chi/chi/v5"
@@ -466,6 +467,89 @@ func runC14(tier string, seed int64) *Outcome {
 						}
 					}
 				}
+				// the decision about one request must not depend on requests that are in flight at the same time: valid
+				// pollers run concurrently with clients that send effective requests with invalid credentials
+				func() {
+					var wg sync.WaitGroup
+					stop := make(chan struct{})
+					before := env.digest()
+					var mu sync.Mutex
+					var judgedClasses []credClass
+					for _, cl := range classes {
+						if cl.judged {
+							judgedClasses = append(judgedClasses, cl)
+						}
+					}
+					for g := 0; g < 6; g++ {
+						wg.Add(1)
+						go func(g int) {
+							defer wg.Done()
+							paths := []string{"/pipelines/", "/pipelines/jobs", "/job/detail"}
+							for i := 0; ; i++ {
+								select {
+								case <-stop:
+									return
+								default:
+								}
+								req := env.request("GET", paths[(i+g)%len(paths)])
+								if g%2 == 0 {
+									req.Header.Set("Authorization", "Bearer "+env.valid)
+								} else {
+									req.AddCookie(&http.Cookie{Name: "jwt", Value: env.valid})
+								}
+								env.h.ServeHTTP(httptest.NewRecorder(), req)
+							}
+						}(g)
+					}
+					var iw sync.WaitGroup
+					n := 0
+					for g := 0; g < 6; g++ {
+						iw.Add(1)
+						go func(g int) {
+							defer iw.Done()
+							routes := [][2]string{{"POST", "/pipelines/schedule"}, {"POST", "/job/cancel"}, {"GET", "/job/logs"}, {"GET", "/pipelines/jobs"}}
+							for i := 0; i < 700; i++ {
+								cl := judgedClasses[(i*7+g)%len(judgedClasses)]
+								rt := routes[(i+g)%len(routes)]
+								req := env.request(rt[0], rt[1])
+								via := "header"
+								switch {
+								case cl.raw != "":
+									req.Header.Set("Authorization", cl.raw)
+								case cl.token == "":
+								case i%2 == 0:
+									req.Header.Set("Authorization", "Bearer "+cl.token)
+								default:
+									via = "cookie"
+									req.AddCookie(&http.Cookie{Name: "jwt", Value: cl.token})
+								}
+								rec := httptest.NewRecorder()
+								env.h.ServeHTTP(rec, req)
+								body := rec.Body.String()
+								mu.Lock()
+								n++
+								if rec.Code != 401 {
+									find("C14:request-without-valid-token-not-401", "%s %s with credential %q via %s answered %d while requests with a valid token were in flight", rt[0], rt[1], cl.name, via, rec.Code)
+								}
+								for _, mk := range env.markers {
+									if mk != "" && strings.Contains(body, mk) {
+										find("C14:rejected-request-reveals-data", "%s %s with credential %q via %s (valid requests in flight): the response body contains %q", rt[0], rt[1], cl.name, via, mk)
+										break
+									}
+								}
+								mu.Unlock()
+							}
+						}(g)
+					}
+					iw.Wait()
+					close(stop)
+					wg.Wait()
+					res.Evaluations += n
+					res.Situations = append(res.Situations, fmt.Sprintf("concurrent valid pollers and invalid clients profiling=%v", profiling))
+					if d := env.digest(); !reflect.DeepEqual(d, before) {
+						find("C14:rejected-request-had-an-effect", "requests with invalid credentials that ran concurrently with valid read-only requests changed the runner state: %v -> %v", before.Jobs, d.Jobs)
+					}
+				}()
 				var nj []string
 				for k, v := range notJudged {
 					nj = append(nj, fmt.Sprintf("%s x%d", k, v))
@@ -493,7 +577,7 @@ func runC14(tier string, seed int64) *Outcome {
 func init() {
 	register(&Check{
 		ID: "C14", Level: "exploration",
-		Rule:        "exhaustive product over: every route pattern discovered with chi.Walk on the real router (hook H3; the run is invalid if fewer than the six known API routes are found) x methods {GET,POST,PUT,PATCH,DELETE,HEAD,OPTIONS} x ~27 invalid credential classes (none, empty bearer, garbage, 2 / 4 segments, other secret, truncated / bit-flipped signature, payload modified after signing, alg none (3 spellings / signatures), HS384 / HS512 with the right secret, RS256 / ES256 headers, expired, not yet valid, basic auth, the secret itself, random single-character edits of a valid token) x transports {Authorization header, cookie jwt, query ?jwt=} x profiling on/off x 3 secrets (16, 33, 100+ bytes incl. non-ASCII), against the real http.Handler of server.NewServer on a runner that holds a running, a waiting and a finished job with log output (job variables and logs large enough that every authenticated listing / detail / log response exceeds 64 KiB). Requests are built to be effective if accepted (schedule an existing pipeline, cancel the running job, read real logs). Oracle: status 401, body free of planted markers (job ids, pipeline / task names, variable values, log lines), runner state (jobs, flags, pipeline list) unchanged; /debug/* answers 404 with profiling off; positive control with a valid token via header and cookie; every judged invalid request is also repeated directly after the same request was answered for a valid token (header / cookie), so that state kept between requests (caches, sessions) cannot open a route. Borderline classes (iat in the future, lower-case 'bearer') are sent and their outcome recorded but never judged. A situation is (method, pattern, registered?, credential family, transport, profiling)",
+		Rule:        "exhaustive product over: every route pattern discovered with chi.Walk on the real router (hook H3; the run is invalid if fewer than the six known API routes are found) x methods {GET,POST,PUT,PATCH,DELETE,HEAD,OPTIONS} x ~27 invalid credential classes (none, empty bearer, garbage, 2 / 4 segments, other secret, truncated / bit-flipped signature, payload modified after signing, alg none (3 spellings / signatures), HS384 / HS512 with the right secret, RS256 / ES256 headers, expired, not yet valid, basic auth, the secret itself, random single-character edits of a valid token) x transports {Authorization header, cookie jwt, query ?jwt=} x profiling on/off x 3 secrets (16, 33, 100+ bytes incl. non-ASCII), against the real http.Handler of server.NewServer on a runner that holds a running, a waiting and a finished job with log output (job variables and logs large enough that every authenticated listing / detail / log response exceeds 64 KiB). Requests are built to be effective if accepted (schedule an existing pipeline, cancel the running job, read real logs). Oracle: status 401, body free of planted markers (job ids, pipeline / task names, variable values, log lines), runner state (jobs, flags, pipeline list) unchanged; /debug/* answers 404 with profiling off; positive control with a valid token via header and cookie; every judged invalid request is also repeated directly after the same request was answered for a valid token (header / cookie), so that state kept between requests (caches, sessions) cannot open a route; finally 6 clients with invalid credentials send effective requests while 6 pollers with a valid token are in flight (the decision about one request must not depend on another). Borderline classes (iat in the future, lower-case 'bearer') are sent and their outcome recorded but never judged. A situation is (method, pattern, registered?, credential family, transport, profiling)",
 		Assumptions: []string{"the listener's bind address and TLS are outside the handler and not examined"},
 		Custom:      runC14,
 		MinDistinct: 200,
